@@ -92,26 +92,33 @@ def confirm(mdir, name):
 
 
 def run(name, checks, tier="quick"):
+    """apply the seeded change in a scratch worktree (never in /repo: other work may be reading it), run the checks with
+    VERIF_REPO pointing there and the evidence redirected, remove the worktree"""
     d = os.path.join(V, "seeded", name)
-    rc, out = sh("git -C %s status --porcelain" % REPO)
-    if out.strip():
-        print("/repo is dirty, refusing")
-        return 2
-    rc, out = sh("git -C %s apply %s/patch.diff" % (REPO, d))
+    wt = "/tmp/mutrun_" + name
+    sh("git -C %s worktree remove --force %s" % (REPO, wt))
+    rc, out = sh("git -C %s worktree add -q --detach %s HEAD" % (REPO, wt))
     if rc:
-        print("patch does not apply to /repo:", out)
+        print(out)
         return 2
     res = {}
     try:
+        rc, out = sh("git apply %s/patch.diff" % d, cwd=wt)
+        if rc:
+            print("patch does not apply to HEAD:", out)
+            return 2
+        ev = "/tmp/mutrun_ev_" + name
+        os.makedirs(ev, exist_ok=True)
         for c in checks:
-            rc, out = sh("cd %s && ./check %s --tier %s" % (V, c, tier), timeout=7200)
+            rc, out = sh("cd %s && VERIF_REPO=%s VERIF_EVIDENCE=%s ./check %s --tier %s" % (V, wt, ev, c, tier), timeout=7200)
             viol = [l for l in out.splitlines() if l.startswith("VIOLATION") or l.startswith("  key=") or l.startswith("INFRA") or l.startswith("NONCONF")]
             res[c] = {"rc": rc, "lines": viol[:8]}
             print(name, c, "rc=%d" % rc)
             for l in viol[:8]:
                 print("   ", l[:300])
+        shutil.rmtree(ev, ignore_errors=True)
     finally:
-        sh("git -C %s checkout -- ." % REPO)
+        sh("git -C %s worktree remove --force %s" % (REPO, wt))
     return res
 
 
